@@ -119,12 +119,24 @@ Fixpoint usedp (fixed : bool) (id : nat) (var : name) (x : ast) {struct x} : boo
          match l with [] => false | e :: r => usedp fixed id var e || go r end) args
   end.
 
-(** simplify.c:188-194 sexp_rest_unused_p *)
+(** simplify.c:188-194 sexp_rest_unused_p, the [usedp] part (the whole function up to /repo 7788b66) *)
 Definition rest_unused (fixed : bool) (id : nat) (r : option name) (body : ast) : bool :=
   match r with
   | None => false
   | Some v => negb (usedp fixed id v body)
   end.
+
+(** simplify.c:190-201 sexp_rest_unused_p as of /repo 7788b66: a rest parameter listed in the lambda's
+    set-vars is never unused (the prologue boxes its slot, vm.c:699-707, whether or not an assignment
+    survived simplification); the set-vars loop runs BEFORE usedp. *)
+Definition rest_in_sv (r : option name) (sv : list name) : bool :=
+  match r with
+  | None => false
+  | Some v => existsb (Nat.eqb v) sv
+  end.
+
+Definition rest_unused_p (fixed : bool) (id : nat) (r : option name) (sv : list name) (body : ast) : bool :=
+  if rest_in_sv r sv then false else rest_unused fixed id r body.
 
 (* ------------------------------------------------------------------ code generation *)
 
@@ -180,6 +192,13 @@ Definition lam_flags (id : nat) (r : option name) (b : ast) : nat :=
   match r with
   | None => 0
   | Some _ => PROC_VARIADIC + (if rest_unused true id r b then PROC_UNUSED_REST else 0)
+  end.
+
+(** vm.c generate_lambda: flags from the real sexp_rest_unused_p (set-vars consulted first) *)
+Definition lam_flags_sv (id : nat) (r : option name) (sv : list name) (b : ast) : nat :=
+  match r with
+  | None => 0
+  | Some _ => PROC_VARIADIC + (if rest_unused_p true id r sv b then PROC_UNUSED_REST else 0)
   end.
 
 (** vm.c:699-707: box every variable in sv at procedure entry *)
@@ -247,7 +266,7 @@ Fixpoint generate (tail : bool) (svs : nat -> list name) (cur : option lctx) (e 
       let svs' := fun m => if Nat.eqb m id then sv else svs m in
       let body := repeat (IPush LUndef) (length ls) ++ box_code ps r ls sv
                   ++ generate true svs' (Some c) b ++ [IRet] in
-      let flags := lam_flags id r b in
+      let flags := lam_flags_sv id r sv b in
       match fv with
       | [] => [IPushProc flags (length ps) body]
       | _ :: _ =>
